@@ -109,49 +109,7 @@ CLAIM = ("Every generated rolling / cumulative / shift / diff / fill / map_overl
 LEVEL_NOTE = "trusts pandas as the reference and the harness comparison (pandas.testing with rtol 1e-9)"
 TECHNIQUE = "runtime monitoring: pandas differential on one program description, complete small partition space + random"
 CASE_TIMEOUT = 120
-PENDING = {
-    # --- DataFrame cum*: the carried "last row" keeps NaN (all-NaN column in a partition / empty partition)
-    "cumsum-cumprod:skipna:frame&all-nan-partition:values":
-        "DataFrame.cumsum/cumprod: a partition whose column is all NaN turns the rest of that column into NaN",
-    "cummin-cummax:skipna:frame&all-nan-partition:values":
-        "DataFrame.cummin/cummax: a partition whose column is all NaN turns the rest of that column into NaN",
-    "cumsum-cumprod:skipna:one-column-frame&all-nan-partition:values": "same on a one-column DataFrame",
-    "cumsum-cumprod:skipna:frame&empty-partition:values":
-        "DataFrame.cumsum/cumprod: everything after an empty partition is NaN",
-    "cumsum-cumprod:skipna=False:frame&empty-partition:values": "same with skipna=False",
-    "cumsum-cumprod:skipna:one-column-frame&empty-partition:values": "one-column DataFrame, empty partition: wrong values",
-    "cumsum-cumprod:skipna=False:one-column-frame&empty-partition:values": "same with skipna=False",
-    "cumsum-cumprod:skipna=False:series&empty-partition:values":
-        "Series.cumsum/cumprod(skipna=False): a NaN before an empty partition is not carried",
-    "cummin-cummax:skipna:frame&empty-partition:values": "DataFrame.cummin/cummax with an empty partition: wrong values (where no exception)",
-    # --- Series / one-column cummin/cummax: TakeLast gives None or a scalar
-    "cummin-cummax:skipna:series&all-nan-partition:values":
-        "Series.cummin/cummax: an all-NaN first partition turns the whole result into NaN",
-    "cummin-cummax:skipna:series&empty-partition:values":
-        "Series.cummin/cummax: empty first partition(s) turn the result into NaN",
-    "cummin-cummax:TypeError@dataframe/methods.py:cummax_aggregate":
-        "Series.cummax with an all-NaN or empty inner partition: max(float, None)",
-    "cummin-cummax:TypeError@dataframe/methods.py:cummin_aggregate":
-        "Series.cummin with an all-NaN or empty inner partition: min(float, None)",
-    "cummin-cummax:ValueError@dataframe/dask_expr/_cumulative.py:cumulative_wrapper_intermediate":
-        "DataFrame.cummin/cummax with an empty partition: 'Must specify axis=0 or 1'",
-    "cummin-cummax:ValueError@dataframe/dask_expr/_cumulative.py:cumulative_wrapper":
-        "DataFrame.cummin/cummax with an empty partition: 'Can only compare identically-labeled DataFrame objects'",
-    "cummin-cummax:IndexError@dataframe/dask_expr/_cumulative.py:cumulative_wrapper":
-        "one-column DataFrame.cummin/cummax with >= 2 partitions: 'invalid index to scalar variable'",
-    "cummin-cummax:TypeError@dataframe/dask_expr/_cumulative.py:cumulative_wrapper":
-        "one-column DataFrame.cummin/cummax: 'float' object is not subscriptable",
-    # --- skipna=False: Python min/max drop the NaN that has to be carried
-    "cummin-cummax:skipna=False:series&nan-before-last-partition:values":
-        "Series.cummin/cummax(skipna=False): a NaN in an inner partition is lost for the following partitions",
-    "cummin-cummax:skipna=False:series&empty-partition:values": "same, with an empty partition in between",
-    # --- dtype
-    "cumsum-cumprod:frame[float+int]:dtype":
-        "DataFrame.cumsum/cumprod: int columns come back float64 when the frame also has a float column (>= 2 partitions)",
-    # --- others
-    "rolling:time-window&center:TypeError@dataframe/dask_expr/_rolling.py:_lower":
-        "rolling('10min', center=True): TypeError 'str' // 'int' (pandas supports centered time windows)",
-}
+PENDING = {}   # all labels found on the pinned tree are removed by fixes_ready/C46_01..03 (see findings_proposed/C46.md)
 
 EX_OPS = (
     {"op": "rolling", "window": 3, "min_periods": None, "center": False, "agg": "sum"},
